@@ -144,7 +144,8 @@ private:
     size_t i = bitPos / WLS;
     size_t j = bitPos % WLS;
 
-    size_t mask = ~(~((size_t)0) << bitsField) << j;
+    size_t mask =
+        (bitsField == WLS ? ~((size_t)0) : ~(~((size_t)0) << bitsField)) << j;
     data[i] = (data[i] & ~mask) | (value << j);
 
     if (j + bitsField > WLS) {
